@@ -1,7 +1,7 @@
 CHECK = {
     "level": "fault_enumeration",
     "engine": "io-faults",
-    "technique": "fault enumeration at run time: every cut offset and every read/write call index of generated RTMP sessions, handshake calls and FLV files on harness-owned faulting transports, expected prefixes from independent reference parsers; exhaustive nesting enumeration for the errors package",
+    "technique": "fault enumeration at run time: every cut offset and every read/write call index (read faults both permanent and transient: one failing call after which the stream continues) of generated RTMP sessions, handshake calls and FLV files on harness-owned faulting transports, expected prefixes from independent reference parsers; exhaustive nesting enumeration to depth 6/8 plus chains of 15..300 layers for the errors package",
     "level_text": "Held for every fault position enumerated: for each generated RTMP session (library-written and reference-chunked with interleaving), each handshake call and each FLV file, the transport was cut at EVERY byte offset (sampled with all structure boundaries +-2 above 8 KiB), failed with a sentinel at EVERY read call index under several segmentations and at EVERY write call index with/without a short write; the real code had to return exactly the items wholly transferred (completion offsets from the reference parsers), then a non-nil error whose errors.Cause is identical to the transport's error, and written bytes had to be a prefix of the fault-free serialisation. The errors package is checked for every nesting of its four wrappers up to depth 6 (quick) / 8 (thorough) over four kinds of root. Exhaustive per session in positions; sessions themselves are sampled.",
     "level_note": "Trusts the reference RTMP de-chunker and the FLV layout for completion offsets. Only the first failing operation is judged (later operations on a failed transport are outside the statement).",
     "parts": [
